@@ -230,6 +230,32 @@ def resolve_names(pas, eqs, integrator):
     return n
 
 
+SHARED_EXTRA_STEPPERS = {}
+_ICH = {}
+
+
+def integrator_choices(cls):
+    """[None (the scheme's default)] + the Integrator classes the scheme's
+    configure_solver names (those are the ones it is written to handle)."""
+    if cls not in _ICH:
+        import re
+        import sys
+        from pysph.sph.integrator import Integrator
+        out = [None]
+        try:
+            src = inspect.getsource(cls.configure_solver)
+            mod = sys.modules[cls.__module__]
+            for nm in sorted(set(re.findall(r'\b(\w+Integrator)\b', src))):
+                c = getattr(mod, nm, None)
+                if inspect.isclass(c) and issubclass(c, Integrator) and \
+                        c is not Integrator:
+                    out.append(c)
+        except (OSError, TypeError):
+            pass
+        _ICH[cls] = out
+    return _ICH[cls]
+
+
 class NonFinite(Exception):
     pass
 
@@ -245,7 +271,19 @@ def one_vector(cls, kw, dim, with_solids, clean, level, mon):
     try:
         with contextlib.redirect_stdout(buf):
             scheme = cls(**kw)
-            scheme.configure_solver(dt=1e-5, tf=3e-5, pfreq=1000000)
+            ckw = dict(dt=1e-5, tf=3e-5, pfreq=1000000)
+            cands = integrator_choices(cls)
+            pick = cands[mon.get('level1', 0) % len(cands)]
+            cargs = inspect.getfullargspec(cls.configure_solver).args
+            if pick is not None and 'integrator_cls' in cargs:
+                ckw['integrator_cls'] = pick
+                mon['integrator_cls_given'] = mon.get(
+                    'integrator_cls_given', 0) + 1
+            if 'extra_steppers' in cargs:
+                # one dict handed to every configure_solver call of this
+                # worker, as a module-level constant in a user script would be
+                ckw['extra_steppers'] = SHARED_EXTRA_STEPPERS
+            scheme.configure_solver(**ckw)
             pas = make_arrays(dim, with_solids, cls)
             scheme.setup_properties(pas, clean=clean)
             eqs = scheme.get_equations()
@@ -257,6 +295,25 @@ def one_vector(cls, kw, dim, with_solids, clean, level, mon):
             cls.__name__, type(e).__name__, str(e)[:100]))
         return 'refused'
     n = resolve_names(pas, eqs, solver.integrator)
+    from vlib import stepkit
+    integ = solver.integrator
+    called = stepkit.timestep_calls(type(integ))['stages']
+    have = set()
+    for st in integ.steppers.values():
+        have |= set(stepkit.stage_methods(st))
+        have |= {h[3:] for h in stepkit.py_hooks(st)}
+    if not called <= have:
+        raise Bad('stage-not-defined', '%s.one_timestep calls %s but the '
+                  'steppers %s define only %s' % (
+                      type(integ).__name__, sorted(called - have),
+                      sorted({type(x).__name__
+                              for x in integ.steppers.values()}),
+                      sorted(have)))
+    if SHARED_EXTRA_STEPPERS:
+        leaked = sorted(SHARED_EXTRA_STEPPERS)
+        SHARED_EXTRA_STEPPERS.clear()
+        raise Bad('extra-steppers-mutated', 'configure_solver wrote %s into '
+                  'the extra_steppers dict it was given' % leaked)
     mon['names_resolved_objects'] = mon.get('names_resolved_objects', 0) + n
     mon['level1'] = mon.get('level1', 0) + 1
     if level < 2:
